@@ -1,8 +1,27 @@
-(* Properties/C12.v — conversion preserves meaning or fails: theorem part (conversion arithmetic).
-   Placeholder importing the primitive codec facts the converter relies on; the component theorems of
-   DESIGN §5 C12 are added to Proofs/ConvertProofs.v as the reader/writer models are merged. *)
-From Coq Require Import List NArith ZArith Bool.
-Require Import GV.Base.Res GV.Base.Ints GV.Model.ConvertArith GV.Proofs.ConvertProofs.
+(* Properties/C12.v — Read-to-write conversion preserves meaning or fails; never silently alters.
+   Only statements (`exact lemma`), non-vacuity examples and pins live here.
+
+   Converter models (each mirrors the Rust function by function, every narrowing explicit):
+     Model/ConvertArith.v  checked integer conversions of write::cfi::convert
+     Model/ConvertCfi.v    CallFrameInstruction::from, CommonInformationEntry::from / FrameDescriptionEntry::from loops
+     Model/ConvertExpr.v   write::op::convert Expression::from
+     Model/ConvertLists.v  RangeList::from, LocationList::from
+     Model/ConvertAttr.v   ConvertUnit::convert_attribute_value / convert_file_index (self-contained value kinds)
+   Each component theorem COMPOSES the reader-side meaning (C06 CfaSpec, C07 OpDec, C08 ListSpec, C03 Attr) with
+   the writer-side read-back theorems (C14 CfaEncSpec / CfiWr, C15 OpEncSpec / OpWr, C16 ListWrSpec, C11 UnitWr):
+   Err is always allowed, a silently different meaning never.
+   Not theorems here: ConvertLineProgram (two known findings, oracle streams c12.line / c12.vliw), whole-unit
+   conversion (entry ids, string tables; oracle stream c12.corpus), normal form of expressions (oracle). *)
+From Coq Require Import List NArith ZArith Bool Sorted.
+From Coq.Strings Require Import Byte.
+Require Import GV.Base.Res GV.Base.Byt GV.Base.Ints.
+Require Import GV.Spec.CfaEncSpec GV.Spec.CfaSpec GV.Model.CfiWr.
+Require Import GV.Model.ConvertArith GV.Model.ConvertCfi GV.Proofs.ConvertProofs GV.Proofs.ConvertCfiProofs
+               GV.Proofs.ConvertCfiWrProofs.
+Import ListNotations.
+Local Open Scope N_scope.
+
+(* ============================================================== (0) conversion arithmetic *)
 
 (* A CFI offset is carried over exactly or the conversion fails: never truncated. *)
 Theorem cfi_offset_exact_or_error : forall (o : N),
@@ -45,3 +64,495 @@ Proof. exact ConvertProofs.convert_advance_exact. Qed.
 Example offset_ok : convert_offset 16 = Ok 16%Z. Proof. reflexivity. Qed.
 Example offset_big : convert_offset (2 ^ 31) = Err CUnsupportedCfiInstruction. Proof. reflexivity. Qed.
 Example factored_ok : convert_factored_offset (-2) (-8) = Ok 16%Z. Proof. reflexivity. Qed.
+
+(* ============================================================== (1) call frame instructions *)
+
+(* cfi_insn_convert_sound — for EVERY CIE and FDE instruction stream (every instruction variant, lazily decoded
+   with a possible decode error), every alignment factor pair and every address range: if the conversion of both
+   programs succeeds and the source programs have an unwind table (CfaSpec run_spec, the C06 machine), then the
+   converted programs — write-side instructions with unfactored offsets, placed at the computed code offsets — have
+   an unwind table too (under unit factors, ConvertCfi.converted_rows), and for every address of the FDE's range
+   both tables hold the same CFA rule, register rules and argument size; an expression operand e of the source
+   corresponds to the place plc b of the bytes b = xconv e it was converted to (conv_R).
+   Nops and location advances are absorbed into the offsets (rows are compared pointwise, not row by row);
+   DW_CFA_set_loc, operands outside the writer's types and offsets beyond u32 make the conversion fail
+   (theorems (0) and cfi_unsupported below).  sp_asize <= 8: addresses are u64. *)
+Theorem cfi_insn_convert_sound :
+  forall (p : sparams) (xconv : uexpr -> res (list byte)) (plc : list byte -> uexpr)
+         (cie fde : list item) (cl : list cfi) (fl : list (N * cfi)) (init end_ : N) (rows : list srow),
+  sp_asize p <= 8 ->
+  conv_cie (sp_caf p) (sp_daf p) xconv cie = Ok cl ->
+  conv_fde (sp_caf p) (sp_daf p) xconv fde = Ok fl ->
+  run_spec p init end_ cie fde = (rows, Done) ->
+  exists rows',
+    converted_rows plc (sp_asize p) init end_ cl fl = (rows', Done) /\
+    forall a, init <= a -> a < end_ ->
+      unw_rel (conv_R xconv plc) (content_at rows a) (content_at rows' a).
+Proof. exact cfi_insn_convert_sound_lemma. Qed.
+
+(* per instruction: every arm of CallFrameInstruction::from means (ConvertCfiProofs.means) an advance by exactly
+   delta * code_alignment_factor bytes (below 2^32 in total), nothing, or acts on every table state exactly as the
+   write instruction it returns *)
+Theorem cfi_insn_convert_each : forall caf daf xconv plc p o i o' c,
+  sp_caf p = caf -> sp_daf p = daf ->
+  conv_step caf daf xconv o i = Ok (o', c) ->
+  exists m, means (conv_R xconv plc) plc p i m /\
+    match m with
+    | MAdvance b => c = None /\ o' = o + b /\ o' < 2 ^ 32
+    | MNop => c = None /\ o' = o
+    | MInsn x => c = Some x /\ o' = o
+    end.
+Proof. exact conv_step_means. Qed.
+
+(* convert ∘ write (C14) ∘ decode (C14) ∘ run (C06): the bytes the frame-table writer emits for the converted
+   programs decode, and whenever the decoded programs have an unwind table under the ORIGINAL factors it holds,
+   for every address of the range, the unwind information of the source programs.  Typing hypotheses: registers
+   are u16 (insn_typed), converted expressions have a usize length. *)
+Theorem cfi_convert_write_read_sound :
+  forall (dbg be : bool) (p : sparams) (xconv : uexpr -> res (list byte)) (plc : list byte -> uexpr)
+         (cie fde : list item) (f : N * Z) (cl : list cfi) (fl : list (N * cfi))
+         (init end_ : N) (rows : list srow) (cbs fbs : list byte),
+  sp_asize p <= 8 ->
+  forallb item_typed cie = true -> forallb item_typed fde = true ->
+  (forall e b, xconv e = Ok b -> is_blob b = true) ->
+  conv_entry (sp_caf p) (sp_daf p) xconv cie fde = Ok (f, cl, fl) ->
+  run_spec p init end_ cie fde = (rows, Done) ->
+  write_insns dbg (sp_daf p) cl = Ok cbs ->
+  write_fde_insns dbg be (sp_caf p) (sp_daf p) 0 fl = Ok fbs ->
+  exists dsc dsf,
+    decode_all be cbs = Some dsc /\ decode_all be fbs = Some dsf /\
+    forall rows2,
+      run_spec p init end_ (map It (map (rd_of_dinsn plc) dsc)) (map It (map (rd_of_dinsn plc) dsf)) = (rows2, Done) ->
+      forall a, init <= a -> a < end_ ->
+        unw_rel (conv_R xconv plc) (content_at rows a) (content_at rows2 a).
+Proof. exact cfi_convert_write_read_sound_lemma. Qed.
+
+(* normal_form (CFI): converting what is read back from the written table (decoded programs ds whose meanings are
+   the written programs: C14 cie_program_read / fde_program_read) reproduces the write-side programs, provided the
+   second expression conversion reproduces the written expressions. *)
+Theorem cfi_normal_form_cie : forall caf daf xconv2 plc,
+  daf <> 0%Z -> (forall b, xconv2 (plc b) = Ok b) ->
+  forall ds cl o, map (sem caf daf) ds = map MInsn cl -> forallb cfi_wf cl = true ->
+  conv_cie_from caf daf xconv2 o (map It (map (rd_of_dinsn plc) ds)) = Ok cl.
+Proof. exact cie_normal_form_lemma. Qed.
+
+Theorem cfi_normal_form_fde : forall caf daf xconv2 plc,
+  daf <> 0%Z -> caf < 2 ^ 32 -> (forall b, xconv2 (plc b) = Ok b) ->
+  forall ds o, forallb (dinsn_wf caf daf) ds = true -> o + adv_sum caf ds < 2 ^ 32 ->
+  conv_fde_from caf daf xconv2 o (map It (map (rd_of_dinsn plc) ds)) = Ok (locate o (map (sem caf daf) ds)).
+Proof. exact fde_normal_form_lemma. Qed.
+
+(* ---- non-vacuity: a CIE + FDE pair with nops, several advances, factored and unfactored offsets, state stack *)
+Definition ex_p : sparams := {| sp_caf := 4; sp_daf := (-8)%Z; sp_asize := 8 |}.
+Definition ex_cie : list item := [It (IDefCfa 7 8); It (IOffset 16 1)].
+Definition ex_fde : list item :=
+  [It (IAdvanceLoc 1); It (IDefCfaOffset 16); It INop; It (IAdvanceLoc 2); It (IAdvanceLoc 1);
+   It (IOffsetExtendedSf 6 2); It IRememberState; It (IAdvanceLoc 1); It IRestoreState; It (IAdvanceLoc 3)].
+Definition ex_x (e : uexpr) : res (list byte) := Err CUnsupportedOperation.
+Definition ex_plc (b : list byte) : uexpr := {| ue_off := 0; ue_len := N.of_nat (length b) |}.
+
+Example cfi_convert_ex :
+  conv_cie 4 (-8) ex_x ex_cie = Ok [Cfa 7 8; Offset 16 (-8)] /\
+  conv_fde 4 (-8) ex_x ex_fde = Ok [(4, CfaOffset 16); (16, Offset 6 (-16)); (16, RememberState); (20, RestoreState)] /\
+  snd (run_spec ex_p 4096 4196 ex_cie ex_fde) = Done /\
+  length (fst (run_spec ex_p 4096 4196 ex_cie ex_fde)) = 6%nat /\
+  snd (converted_rows ex_plc 8 4096 4196 [Cfa 7 8; Offset 16 (-8)]
+         [(4, CfaOffset 16); (16, Offset 6 (-16)); (16, RememberState); (20, RestoreState)]) = Done /\
+  length (fst (converted_rows ex_plc 8 4096 4196 [Cfa 7 8; Offset 16 (-8)]
+         [(4, CfaOffset 16); (16, Offset 6 (-16)); (16, RememberState); (20, RestoreState)])) = 4%nat.
+Proof. vm_compute. repeat split. Qed.
+
+(* what is not convertible is an error, never an approximation *)
+Example cfi_unsupported :
+  conv_fde 4 (-8) ex_x [It (ISetLoc 4100)] = Err CUnsupportedCfiInstruction /\
+  conv_fde 4 (-8) ex_x [It (IDefCfa 7 (2 ^ 31))] = Err CUnsupportedCfiInstruction /\
+  conv_fde 4 (-8) ex_x [It (IAdvanceLoc (2 ^ 30))] = Err CUnsupportedCfiInstruction /\
+  conv_fde 4 (-8) ex_x [It (IOffset 6 (2 ^ 63))] = Err CUnsupportedCfiInstruction /\
+  conv_fde 4 (-8) ex_x [It (IArgsSize (2 ^ 32))] = Err CUnsupportedCfiInstruction /\
+  conv_fde 4 (-8) ex_x [It (IDefCfaOffset 8); Bad EUnknownCallFrameInstruction] = Err EUnknownCallFrameInstruction /\
+  conv_entry 256 (-8) ex_x [] [] = Err CUnsupportedCfiInstruction.
+Proof. vm_compute. repeat split. Qed.
+
+Example cfi_typed_ex : forallb item_typed ex_cie = true /\ forallb item_typed ex_fde = true /\
+  (forall e b, ex_x e = Ok b -> is_blob b = true) /\
+  exists f cl fl cbs fbs, conv_entry 4 (-8) ex_x ex_cie ex_fde = Ok (f, cl, fl) /\
+    write_insns true (-8) cl = Ok cbs /\ write_fde_insns true false 4 (-8) 0 fl = Ok fbs.
+Proof.
+  split; [reflexivity|]. split; [reflexivity|]. split; [discriminate|].
+  do 5 eexists. split; [vm_compute; reflexivity|]. split; vm_compute; reflexivity.
+Qed.
+
+(* ... and the table read back from the written bytes exists (the inner hypothesis of cfi_convert_write_read_sound) *)
+Example cfi_readback_ex :
+  match conv_entry 4 (-8) ex_x ex_cie ex_fde with
+  | Ok (_, cl, fl) =>
+      match write_insns true (-8) cl, write_fde_insns true false 4 (-8) 0 fl with
+      | Ok cbs, Ok fbs =>
+          match decode_all false cbs, decode_all false fbs with
+          | Some dsc, Some dsf =>
+              snd (run_spec ex_p 4096 4196 (map It (map (rd_of_dinsn ex_plc) dsc)) (map It (map (rd_of_dinsn ex_plc) dsf))) = Done
+          | _, _ => False
+          end
+      | _, _ => False
+      end
+  | _ => False
+  end.
+Proof. vm_compute. reflexivity. Qed.
+
+Example cfi_normal_form_ex :
+  forallb (dinsn_wf 4 (-8)) [DAdvance 1; DDefCfaOffset 16; DAdvance 3; DOffsetExtendedSf 6 2; DNop] = true /\
+  0 + adv_sum 4 [DAdvance 1; DDefCfaOffset 16; DAdvance 3; DOffsetExtendedSf 6 2; DNop] < 2 ^ 32 /\
+  locate 0 (map (sem 4 (-8)) [DAdvance 1; DDefCfaOffset 16; DAdvance 3; DOffsetExtendedSf 6 2; DNop])
+    = [(4, CfaOffset 16); (16, Offset 6 (-16))].
+Proof. vm_compute. repeat split. Qed.
+
+
+(* ============================================================== (2) expressions *)
+Require Import GV.Model.ConvertExpr GV.Proofs.ConvertExprProofs GV.Proofs.ConvertExprTyped.
+Require GV.Spec.OpEncSpec GV.Model.OpWr GV.Model.OpDec GV.Proofs.OpWrProofs GV.Proofs.OpWrDec.
+
+(* expr_convert_sound — for EVERY list of read operations with their end offsets (l; offsets_of l = operation
+   starts ++ [length], as Expression::from computes them), every conversion callback (addresses, .debug_addr,
+   unit / .debug_info references, nested entry_value blocks): if the second loop of Expression::from succeeds and
+   the writer (C15 model OpWr) writes the result, then the written bytes decode (C15's independent opcode table
+   OpEncSpec) to exactly one operation per source operation, in order, each being the source operation up to the
+   documented normal forms (ConvertExpr.same_op): same operands; typed operations carry the unit offset the writer
+   assigned to the entry the source offset was converted to; addresses are the converted constants; addrx / constx
+   are resolved through .debug_addr; DW_OP_piece keeps its size; every DW_OP_skip / DW_OP_bra lands (written
+   displacement) on the start of the written operation with the index of the source operation its source target
+   designated; .debug_info references are written as placeholder + fix-up (C15 ref_fixup); an entry_value block is
+   the written conversion of the source block.  Hypotheses on the result: values of the Rust types / decodable
+   (C15's wf_op, decodable) — discharged for parsed input by expr_converted_well_typed below. *)
+Theorem expr_convert_sound :
+  forall (e : OpDec.enc) unit_addr cvt_addr unit_ref info_ref nested
+         (l : list (OpDec.operation * N)) (ex : OpWr.wexpr)
+         (dbg' : bool) (we : OpWr.enc) (uo : option OpWr.uoffs) (refs : bool) (base : N)
+         (wbs : list byte) (fx : list OpWr.fixup),
+  conv_ops e unit_addr cvt_addr unit_ref info_ref nested (offsets_of l) l = Ok ex ->
+  OpWr.e_asize we = OpDec.e_asz e ->
+  forallb OpWr.wf_op ex = true -> OpWr.wf_uoffs uo = true -> forallb OpWrDec.decodable ex = true ->
+  base + OpWr.blen wbs < 2 ^ 63 ->
+  OpWr.write_expr dbg' we uo refs base ex = Ok (wbs, fx) ->
+  exists woffs dl,
+    OpWr.expr_offsets dbg' we uo base ex = Ok woffs /\
+    OpEncSpec.decode (OpWrProofs.dcfg_of we) wbs = Some dl /\ length dl = length l /\
+    forall k o end_, nth_error l k = Some (o, end_) ->
+      exists p d, nth_error woffs k = Some p /\ nth_error dl k = Some (p - base, d) /\
+        same_op unit_addr cvt_addr unit_ref info_ref (OpWr.entry_offset dbg' uo)
+                (nested_written nested dbg' we uo refs) (offsets_of l) woffs p o end_ d.
+Proof. exact expr_convert_sound_lemma. Qed.
+
+(* the same from the bytes of the source expression (Expression::from = conv_expr), all hypotheses about the
+   converted expression discharged: callbacks return values of their Rust types, the slice is shorter than usize::MAX *)
+Theorem expr_convert_sound_bytes :
+  forall (dbg : bool) (e : OpDec.enc) unit_addr cvt_addr unit_ref info_ref (bs : list byte) (ex : OpWr.wexpr)
+         (dbg' : bool) (we : OpWr.enc) (uo : option OpWr.uoffs) (refs : bool) (base : N)
+         (wbs : list byte) (fx : list OpWr.fixup),
+  (forall x en, unit_ref x = Ok en -> en < 2 ^ 64) ->
+  (forall x r, info_ref x = Ok r -> OpWr.wf_ref r = true) ->
+  (forall a w, cvt_addr a = Some w -> OpWr.wf_op (OpWr.WoAddress w) = true) ->
+  (forall ua i v, unit_addr = Some ua -> ua i = Ok v -> v < 2 ^ 64) ->
+  OpWr.blen bs < 2 ^ 64 - 1 ->
+  conv_expr dbg e unit_addr cvt_addr unit_ref info_ref bs = Ok ex ->
+  OpWr.e_asize we = OpDec.e_asz e -> OpWr.wf_uoffs uo = true -> base + OpWr.blen wbs < 2 ^ 63 ->
+  OpWr.write_expr dbg' we uo refs base ex = Ok (wbs, fx) ->
+  exists l woffs dl,
+    op_ends dbg e (S (length bs)) bs 0 = Ok l /\
+    OpWr.expr_offsets dbg' we uo base ex = Ok woffs /\
+    OpEncSpec.decode (OpWrProofs.dcfg_of we) wbs = Some dl /\ length dl = length l /\
+    forall k o end_, nth_error l k = Some (o, end_) ->
+      exists p d, nth_error woffs k = Some p /\ nth_error dl k = Some (p - base, d) /\
+        same_op unit_addr cvt_addr unit_ref info_ref (OpWr.entry_offset dbg' uo)
+                (nested_written (conv_expr_fuel dbg e unit_addr cvt_addr unit_ref info_ref (length bs)) dbg' we uo refs)
+                (offsets_of l) woffs p o end_ d.
+Proof. exact expr_convert_sound_bytes_lemma. Qed.
+
+(* a branch whose target (offset after the operation + displacement, in usize arithmetic) is not the start of an
+   operation nor the end of the expression is InvalidBranchTarget — never redirected; a resolved index is the
+   index of exactly that offset *)
+Theorem expr_branch_target_exact : forall e unit_addr cvt_addr unit_ref info_ref nested offsets end_ target,
+  let tgt := wrap64 (end_ + of_i64 target) in
+  (~ In tgt offsets ->
+     conv_op e unit_addr cvt_addr unit_ref info_ref nested offsets (OpDec.OBra target) end_ = Err CInvalidBranchTarget /\
+     conv_op e unit_addr cvt_addr unit_ref info_ref nested offsets (OpDec.OSkip target) end_ = Err CInvalidBranchTarget) /\
+  (forall i, conv_op e unit_addr cvt_addr unit_ref info_ref nested offsets (OpDec.OBra target) end_ = Ok (OpWr.WoBranch i) ->
+     nth_error offsets (N.to_nat i) = Some tgt) /\
+  (forall i, conv_op e unit_addr cvt_addr unit_ref info_ref nested offsets (OpDec.OSkip target) end_ = Ok (OpWr.WoSkip i) ->
+     nth_error offsets (N.to_nat i) = Some tgt).
+Proof. exact branch_target_exact_lemma. Qed.
+
+(* the offsets vector of the first loop is strictly increasing and ends with the length of the expression:
+   `binary_search` (modelled by index_of) finds the unique index *)
+Theorem expr_offsets_sorted : forall dbg e fuel bs pos l,
+  op_ends dbg e fuel bs pos = Ok l ->
+  StronglySorted N.lt (pos :: map snd l) /\ last (pos :: map snd l) 0 = pos + OpWr.blen bs.
+Proof. exact op_ends_sorted. Qed.
+
+(* Operation::parse returns values of the Rust field types, so Expression::from returns a well-typed, decodable
+   write::Expression (the hypotheses of the C15 theorems), nested blocks included *)
+Theorem expr_converted_well_typed : forall dbg e unit_addr cvt_addr unit_ref info_ref,
+  (forall x en, unit_ref x = Ok en -> en < 2 ^ 64) ->
+  (forall x r, info_ref x = Ok r -> OpWr.wf_ref r = true) ->
+  (forall a w, cvt_addr a = Some w -> OpWr.wf_op (OpWr.WoAddress w) = true) ->
+  (forall ua i v, unit_addr = Some ua -> ua i = Ok v -> v < 2 ^ 64) ->
+  forall fuel bs ex, OpWr.blen bs < 2 ^ 64 - 1 ->
+  conv_expr_fuel dbg e unit_addr cvt_addr unit_ref info_ref fuel bs = Ok ex ->
+  forallb OpWr.wf_op ex = true /\ forallb OpWrDec.decodable ex = true.
+Proof. exact conv_expr_fuel_wf. Qed.
+
+(* the stated fuel suffices (callbacks that terminate) *)
+Theorem expr_fuel_suffices : forall dbg e unit_addr cvt_addr unit_ref info_ref,
+  (forall x, unit_ref x <> OutOfFuel) -> (forall x, info_ref x <> OutOfFuel) ->
+  (forall ua i, unit_addr = Some ua -> ua i <> OutOfFuel) ->
+  forall fuel bs, (length bs < fuel)%nat ->
+  conv_expr_fuel dbg e unit_addr cvt_addr unit_ref info_ref fuel bs <> OutOfFuel.
+Proof. exact conv_expr_fuel_enough. Qed.
+
+(* normal_form (expressions), per operation.
+   FULL statement (not proved): conv_expr2 (bytes written for conv_expr bs) = conv_expr bs, i.e. a second
+   Expression::from on the written expression reproduces the first result.
+   PROVED: for every operation without a .debug_info reference, the operation a reader reports (op_of_dop: the
+   read::Operation vocabulary of a decoded operation) for the written form (C15 normal_form) of the converted
+   operation converts to the same write operation again — branches resolve to the same operation index (the written
+   displacement added in usize arithmetic to the offset after the branch is the start of the target), typed operations
+   find the same entry, deref/deref_size/deref_type, pick/dup/over, lit/constu, reg/regx, piece keep their kind.
+   MISSING for the full statement: (i) that the written operation starts are strictly increasing (every written
+   operation is non-empty) as a consequence of C15 instead of a hypothesis; (ii) the tie between the reader model's
+   parse (C07 OpDec.parse_op) and the decode table of C15 on written bytes (a reader∘writer theorem of C15);
+   (iii) .debug_info references, whose written value is a placeholder until the fix-ups are applied (C15
+   fixup_resolved).  The whole-expression property is exercised by the oracle streams (idempotence-mismatch). *)
+Require Import GV.Proofs.ConvertExprNormal.
+Theorem expr_normal_form_partial :
+  forall (e : OpDec.enc) unit_addr cvt_addr unit_ref info_ref nested
+         (dbg' : bool) (we : OpWr.enc) (uo : option OpWr.uoffs) (refs : bool)
+         (e2 : OpDec.enc) unit_addr2 cvt_addr2 unit_ref2 info_ref2 nested2,
+  OpWr.e_asize we = OpDec.e_asz e -> OpDec.e_asz e2 = OpWr.e_asize we ->
+  (forall v, cvt_addr2 v = Some (OpWr.AConst v)) ->
+  (forall en off, OpWr.entry_offset dbg' uo en = Ok off -> off <> 0 /\ unit_ref2 off = Ok en) ->
+  (forall x inner wb p fx,
+     nested x = Ok inner -> OpWr.write_expr dbg' we uo refs p inner = Ok (wb, fx) -> nested2 wb = Ok inner) ->
+  forall soffs woffs base wpos o end_ wo bs d,
+  conv_op e unit_addr cvt_addr unit_ref info_ref nested soffs o end_ = Ok wo ->
+  OpWrDec.normal_form dbg' we uo refs woffs wpos wo bs d ->
+  info_ref_free o = true ->
+  StronglySorted N.lt (map (fun p => p - base) woffs) -> Forall (fun p => base <= p /\ p < 2 ^ 63) woffs ->
+  base <= wpos -> wpos + 3 < 2 ^ 63 ->
+  exists o2, op_of_dop d = Some o2 /\
+    forall end2, (is_branch o = true -> end2 = wpos + 3 - base) ->
+      conv_op e2 unit_addr2 cvt_addr2 unit_ref2 info_ref2 nested2 (map (fun p => p - base) woffs) o2 end2 = Ok wo.
+Proof. exact expr_normal_form_op_lemma. Qed.
+
+
+(* ---- non-vacuity: lit5; skip +3 (over the bregx); bregx 40,-8; bra -9 (back to the skip); addr; entry_value{reg5} *)
+Definition ex_enc : OpDec.enc := OpDec.mkEnc 8 false 5 false.
+Definition ex_wenc : OpWr.enc := {| OpWr.e_version := 5; OpWr.e_fmt64 := false; OpWr.e_asize := 8; OpWr.e_be := false |}.
+Definition ex_cvt (a : N) : option OpWr.waddr := Some (OpWr.AConst a).
+Definition ex_uref (o : N) : res N := if o =? 29 then Ok 2 else Err CInvalidUnitRef.
+Definition ex_iref (o : N) : res OpWr.dref := Err CInvalidDebugInfoRef.
+Definition ex_bytes : list byte :=
+  [x35; x2f; x03; x00; x92; x28; x78; x28; xf7; xff; x03; x00; x10; x00; x00; x00; x00; x00; x00; xa3; x01; x55].
+
+Example expr_convert_ex :
+  conv_expr true ex_enc None ex_cvt ex_uref ex_iref ex_bytes =
+    Ok [OpWr.WoUConst 5; OpWr.WoSkip 3; OpWr.WoRegOffset 40 (-8); OpWr.WoBranch 1; OpWr.WoAddress (OpWr.AConst 4096);
+        OpWr.WoEntryValue [OpWr.WoRegister 5]] /\
+  OpWr.write_expr true ex_wenc None false 0
+    [OpWr.WoUConst 5; OpWr.WoSkip 3; OpWr.WoRegOffset 40 (-8); OpWr.WoBranch 1; OpWr.WoAddress (OpWr.AConst 4096);
+     OpWr.WoEntryValue [OpWr.WoRegister 5]] = Ok (ex_bytes, []).
+Proof. vm_compute. split; reflexivity. Qed.
+
+Example expr_branch_into_operand :   (* skip +1 lands inside the bregx: rejected *)
+  conv_expr true ex_enc None ex_cvt ex_uref ex_iref [x2f; x01; x00; x92; x28; x78] = Err CInvalidBranchTarget /\
+  conv_expr true ex_enc None ex_cvt ex_uref ex_iref [x2f; x03; x00; x92; x28; x78] = Ok [OpWr.WoSkip 2; OpWr.WoRegOffset 40 (-8)] /\
+  conv_expr true ex_enc None ex_cvt ex_uref ex_iref [xa1; x00] = Err CUnsupportedOperation /\
+  conv_expr true ex_enc None ex_cvt ex_uref ex_iref [xa8; x1d] = Ok [OpWr.WoConvert (Some 2)] /\
+  conv_expr true ex_enc None ex_cvt ex_uref ex_iref [xa8; x1e] = Err CInvalidUnitRef /\
+  conv_expr true ex_enc None ex_cvt ex_uref ex_iref [x93] = Err EUnexpectedEof.
+Proof. vm_compute. repeat split. Qed.
+
+Example expr_callbacks_ex :
+  (forall x en, ex_uref x = Ok en -> en < 2 ^ 64) /\ (forall x r, ex_iref x = Ok r -> OpWr.wf_ref r = true) /\
+  (forall a w, a < 2 ^ 64 -> ex_cvt a = Some w -> OpWr.wf_op (OpWr.WoAddress w) = true).
+Proof.
+  split; [|split].
+  - intros x en. unfold ex_uref. destruct (x =? 29); intros H; inversion H. reflexivity.
+  - discriminate.
+  - intros a w Ha H. inversion H; subst. cbn. unfold OpWr.is_u64, two64. apply N.ltb_lt. exact Ha.
+Qed.
+
+Example expr_normal_form_ex :   (* the branch of expr_convert_ex: written at 7, displacement -9, target = operation 1 at offset 1 *)
+  StronglySorted N.lt (map (fun p => p - 0) [0; 1; 4; 7; 10; 19; 22]) /\
+  OpWrDec.normal_form true ex_wenc None false [0; 1; 4; 7; 10; 19; 22] 7 (OpWr.WoBranch 1) [x28; xf7; xff] (OpEncSpec.DoBra (-9)) /\
+  op_of_dop (OpEncSpec.DoBra (-9)) = Some (OpDec.OBra (-9)) /\
+  conv_op ex_enc None ex_cvt ex_uref ex_iref (fun _ => Err EOther) [0; 1; 4; 7; 10; 19; 22] (OpDec.OBra (-9)) 10 = Ok (OpWr.WoBranch 1).
+Proof.
+  split; [repeat constructor; vm_compute; reflexivity|]. split; [|split; vm_compute; reflexivity].
+  cbn. exists 1, (-9)%Z. repeat split.
+Qed.
+
+(* ============================================================== (3) range and location lists *)
+Require Import GV.Model.ConvertLists GV.Proofs.ConvertListsProofs.
+Require GV.Spec.ListSpec GV.Spec.ListWrSpec GV.Model.ListsRd.
+
+(* range_convert_sound — for EVERY raw range list (all entry kinds of .debug_ranges / .debug_rnglists incl. the
+   pre-v5 address-or-offset pair and the indexed forms; an iterator error ends the conversion with that error),
+   every unit base address, address size >= 1 and .debug_addr: with a non-relocating address conversion, if
+   RangeList::from succeeds then the converted list has a meaning (C16 ListWrSpec.meaning_rng: what the written
+   list denotes relative to the unit base) and it is exactly the list of address ranges the source list resolves
+   to (C08 ListSpec.resolve_rng): base-address bookkeeping agrees, pairs are taken as offsets exactly when a base
+   address is in force, empty ranges vanish on both sides.  lent_fits: raw addresses fit the address size. *)
+Theorem range_convert_sound : forall (cvt : N -> option ListWrSpec.addr) (uaddr : N -> res N) (asz : N),
+  1 <= asz -> (forall a w, cvt a = Some w -> w = ListWrSpec.AConst a) ->
+  forall low_pc es l,
+  Forall (lent_fits asz) (items es) ->
+  conv_range_list cvt uaddr low_pc es = Ok l ->
+  exists rs,
+    ListWrSpec.meaning_rng asz low_pc l = Some rs /\
+    ListSpec.resolve_rng asz (tbl_of uaddr) low_pc (items es) = Some rs.
+Proof. exact range_convert_sound_lemma. Qed.
+
+(* loc_convert_sound — the same for location lists (default location included); each resolved range carries the
+   converted expression of the source entry (drel: xconv source = Ok converted) *)
+Theorem loc_convert_sound : forall (cvt : N -> option ListWrSpec.addr) (uaddr : N -> res N)
+    (xconv : list byte -> res (list byte)) (asz : N),
+  1 <= asz -> (forall a w, cvt a = Some w -> w = ListWrSpec.AConst a) ->
+  forall low_pc xs l,
+  Forall (fun x => lent_fits asz (fst x)) (items xs) ->
+  conv_loc_list cvt uaddr xconv low_pc xs = Ok l ->
+  exists rs rs0,
+    ListWrSpec.meaning_loc asz low_pc l = Some rs /\
+    ListSpec.resolve_loc asz (tbl_of uaddr) low_pc (items xs) = Some rs0 /\
+    Forall2 (drel xconv) rs0 rs.
+Proof. exact loc_convert_sound_lemma. Qed.
+
+(* normal_form (lists): the entries a reader finds in the written list (C16: dec5 yields ents_of l, dec4 yields
+   pairs_of l) convert to the same list again — DWARF 5 entries unconditionally, pre-v5 pairs for lists in pair
+   form (offset pairs exactly while a base address is in force) — given that the second expression conversion
+   reproduces the written expressions *)
+Theorem list_normal_form_v5 : forall (cvt : N -> option ListWrSpec.addr) uaddr xconv2,
+  (forall a, cvt a = Some (ListWrSpec.AConst a)) ->
+  forall l ents hb,
+  ListWrSpec.ents_of l = Some ents -> forallb keep_loc l = true ->
+  Forall (fun y => xconv2 (loc_data y) = Ok (loc_data y)) l ->
+  conv_locs cvt uaddr xconv2 hb (map (fun x => ListsRd.EvItem (raw_of_ent x)) ents) = Ok l.
+Proof. exact locs_normal_form_v5. Qed.
+
+Theorem list_normal_form_v4 : forall (cvt : N -> option ListWrSpec.addr) uaddr xconv2,
+  (forall a, cvt a = Some (ListWrSpec.AConst a)) ->
+  forall l ps hb,
+  ListWrSpec.pairs_of l = Some ps -> pair_form hb l = true -> forallb keep_loc l = true ->
+  Forall (fun y => xconv2 (loc_data y) = Ok (loc_data y)) l ->
+  conv_locs cvt uaddr xconv2 hb (map (fun x => ListsRd.EvItem (raw_of_ent x)) ps) = Ok l.
+Proof. exact locs_normal_form_v4. Qed.
+
+(* ---- non-vacuity: a DWARF 4 style list (pairs relative to low_pc, base selection, an empty pair) and a v5 one *)
+Definition ex_lcvt (a : N) : option ListWrSpec.addr := Some (ListWrSpec.AConst a).
+Definition ex_uaddr (i : N) : res N := if i <? 2 then Ok (8192 + 16 * i) else Err EUnexpectedEof.
+Example range_convert_ex :
+  conv_range_list ex_lcvt ex_uaddr 4096
+    [ListsRd.EvItem (ListSpec.LPair 16 32); ListsRd.EvItem (ListSpec.LPair 5 5); ListsRd.EvItem (ListSpec.LBase 65536);
+     ListsRd.EvItem (ListSpec.LPair 1 2); ListsRd.EvItem (ListSpec.LStartxLength 1 4)]
+  = Ok [ListWrSpec.ROffsetPair 16 32; ListWrSpec.RBase (ListWrSpec.AConst 65536); ListWrSpec.ROffsetPair 1 2;
+        ListWrSpec.RStartLength (ListWrSpec.AConst 8208) 4] /\
+  conv_range_list ex_lcvt ex_uaddr 0 [ListsRd.EvItem (ListSpec.LPair 16 32)]
+  = Ok [ListWrSpec.RStartEnd (ListWrSpec.AConst 16) (ListWrSpec.AConst 32)] /\
+  ListSpec.resolve_rng 8 (tbl_of ex_uaddr) 4096
+    [ListSpec.LPair 16 32; ListSpec.LPair 5 5; ListSpec.LBase 65536; ListSpec.LPair 1 2; ListSpec.LStartxLength 1 4]
+  = Some [(4112, 4128); (65537, 65538); (8208, 8212)] /\
+  conv_range_list ex_lcvt ex_uaddr 0 [ListsRd.EvItem (ListSpec.LStartxEndx 0 7)] = Err EUnexpectedEof /\
+  conv_range_list (fun _ => None) ex_uaddr 0 [ListsRd.EvItem (ListSpec.LBase 1)] = Err CInvalidAddress /\
+  conv_range_list ex_lcvt ex_uaddr 0 [ListsRd.EvItem (ListSpec.LBase 1); ListsRd.EvErr EUnknownRangeListsEntry]
+  = Err EUnknownRangeListsEntry.
+Proof. vm_compute. repeat split. Qed.
+
+Example range_fits_ex : Forall (lent_fits 8) [ListSpec.LPair 16 32; ListSpec.LBase 65536; ListSpec.LStartxLength 1 4].
+Proof. repeat constructor; vm_compute; reflexivity. Qed.
+
+Example list_normal_form_ex :
+  pair_form true [ListWrSpec.LOffsetPair 16 32 [x9c]; ListWrSpec.LBase (ListWrSpec.AConst 65536); ListWrSpec.LOffsetPair 1 2 []] = true /\
+  ListWrSpec.pairs_of [ListWrSpec.LOffsetPair 16 32 [x9c]; ListWrSpec.LBase (ListWrSpec.AConst 65536); ListWrSpec.LOffsetPair 1 2 []]
+    = Some [ListWrSpec.EPair 16 32 [x9c]; ListWrSpec.EBase 65536; ListWrSpec.EPair 1 2 []].
+Proof. vm_compute. split; reflexivity. Qed.
+
+(* ============================================================== (4) attribute values *)
+Require Import GV.Model.ConvertAttr GV.Proofs.ConvertAttrProofs.
+Require GV.Spec.FormSpec GV.Model.Attr GV.Spec.UnitWrSpec GV.Model.UnitWr GV.Proofs.UnitWrProofs.
+
+(* attr_convert_sound — for every attribute whose value kind carries its meaning in the value (constants of every
+   width, sdata / udata, flags, blocks, inline strings, addresses direct and through .debug_addr, supplementary /
+   macro / type-signature offsets, the class constants): convert_attribute_value, then AttributeValue::write (C11
+   model), then the form decoder of C11 under the form the writer chose: the data read back is the data of the
+   source value (rd_payload of Attribute::value()).  Non-relocating address conversion; values within their Rust
+   widths (rd_value_typed). *)
+Theorem attr_convert_sound :
+  forall ver files (cvt : N -> option UnitWr.address) uaddr (dbg : bool) (cx : UnitWr.wcx) form name raw av ops rest,
+  (forall a w, cvt a = Some w -> w = UnitWr.AConst a) ->
+  form <> Attr.DW_FORM_implicit_const -> form <> Attr.DW_FORM_flag_present ->
+  is_file_index (Attr.attr_normalise name raw) = false ->
+  rd_value_typed (Attr.attr_normalise name raw) ->
+  (forall i a, uaddr i = Ok a -> a < 2 ^ 64) ->
+  conv_attr ver files cvt uaddr form name raw = Ok (Some av) ->
+  UnitWr.av_write dbg cx av = Ok ops -> UnitWrProofs.av_decodable av ->
+  exists payload,
+    rd_payload uaddr (Attr.attr_normalise name raw) = Some payload /\
+    UnitWrSpec.form_decode (UnitWr.wc_enc cx) (UnitWr.wc_be cx) (fst (UnitWr.av_form (UnitWr.wc_enc cx) av))
+                (match snd (UnitWr.av_form (UnitWr.wc_enc cx) av) with Some z => z | None => 0%Z end)
+                (UnitWr.ops_bytes ops ++ rest) = Some (payload, rest).
+Proof. exact attr_convert_write_read_lemma. Qed.
+
+(* the file-index rule (repo fix b755e5a): whether the index is stored in the DIE or in the abbreviation
+   (DW_FORM_implicit_const), it is replaced by the id the converted line program gave that file; index 0 of a
+   DWARF <= 4 unit is "no file"; an index outside the table is InvalidFileIndex; never copied verbatim *)
+Theorem attr_file_index_rule : forall ver files (cvt : N -> option UnitWr.address) uaddr form name raw i,
+  Attr.attr_normalise name raw = FormSpec.VFileIndex i ->
+  (form = Attr.DW_FORM_implicit_const -> exists z, raw = FormSpec.VSdata z) ->
+  conv_attr ver files cvt uaddr form name raw =
+    if (i =? 0) && (ver <=? 4) then Ok (Some (UnitWr.AvFileIndex None))
+    else match nth_N files i with
+         | Some id => Ok (Some (UnitWr.AvFileIndex (Some id)))
+         | None => Err CInvalidFileIndex
+         end.
+Proof. exact conv_attr_file_index. Qed.
+
+(* ... and the written index (1-based up to DWARF 4 line programs) reads back as that id (C11) *)
+Theorem attr_file_index_written : forall dbg lpv id r,
+  id + 1 < 2 ^ 64 -> UnitWr.file_raw dbg lpv (Some id) = Ok r -> UnitWrProofs.file_of_raw lpv r = Some id.
+Proof. exact file_index_written. Qed.
+
+(* other implicit constants keep the constant of the abbreviation; flag_present stays flag_present;
+   DwoId is written as Udata, which reads back as DwoId under DW_AT_GNU_dwo_id *)
+Theorem attr_implicit_const : forall ver files (cvt : N -> option UnitWr.address) uaddr name z,
+  is_file_index (Attr.attr_normalise name (FormSpec.VSdata z)) = false ->
+  conv_attr ver files cvt uaddr Attr.DW_FORM_implicit_const name (FormSpec.VSdata z) = Ok (Some (UnitWr.AvImplicitConst z)).
+Proof. exact conv_attr_implicit_const. Qed.
+
+Theorem attr_flag_present : forall ver files (cvt : N -> option UnitWr.address) uaddr name raw f,
+  Attr.attr_normalise name raw = FormSpec.VFlag f ->
+  conv_attr ver files cvt uaddr Attr.DW_FORM_flag_present name raw = Ok (Some UnitWr.AvFlagPresent).
+Proof. exact conv_attr_flag_present. Qed.
+
+Theorem attr_dwo_id_normal_form : forall v, Attr.attr_normalise 8497 (FormSpec.VUdata v) = FormSpec.VDwoId v.
+Proof. exact dwo_id_normal_form. Qed.
+
+(* ---- non-vacuity: decl_file through implicit_const in a DWARF 5 unit whose files were renumbered *)
+Definition ex_acvt (a : N) : option UnitWr.address := Some (UnitWr.AConst a).
+Example attr_convert_ex :
+  conv_attr 5 [0; 2; 1] ex_acvt ex_uaddr Attr.DW_FORM_implicit_const 58 (FormSpec.VSdata 1) = Ok (Some (UnitWr.AvFileIndex (Some 2))) /\
+  conv_attr 5 [0; 2; 1] ex_acvt ex_uaddr Attr.DW_FORM_implicit_const 58 (FormSpec.VSdata 7) = Err CInvalidFileIndex /\
+  conv_attr 4 [0; 2; 1] ex_acvt ex_uaddr Attr.DW_FORM_data1 58 (FormSpec.VData1 0) = Ok (Some (UnitWr.AvFileIndex None)) /\
+  conv_attr 5 [0; 2; 1] ex_acvt ex_uaddr Attr.DW_FORM_implicit_const 59 (FormSpec.VSdata 7) = Ok (Some (UnitWr.AvImplicitConst 7)) /\
+  conv_attr 5 [] ex_acvt ex_uaddr Attr.DW_FORM_data1 62 (FormSpec.VData1 5) = Ok (Some (UnitWr.AvEncoding 5)) /\
+  conv_attr 5 [] ex_acvt ex_uaddr Attr.DW_FORM_addrx 17 (FormSpec.VDebugAddrIndex 1) = Ok (Some (UnitWr.AvAddress (UnitWr.AConst 8208))) /\
+  conv_attr 5 [] ex_acvt ex_uaddr Attr.DW_FORM_data8 8497 (FormSpec.VData8 77) = Ok (Some (UnitWr.AvUdata 77)) /\
+  conv_attr 5 [] ex_acvt ex_uaddr Attr.DW_FORM_sec_offset 1 (FormSpec.VSecOffset 3) = Err CInvalidAttributeValue /\
+  conv_attr 5 [] ex_acvt ex_uaddr Attr.DW_FORM_ref4 73 (FormSpec.VUnitRef 12) = Ok None.
+Proof. vm_compute. repeat split. Qed.
+
+Check cfi_offset_exact_or_error. Check cfi_factored_offset_exact_or_error. Check cfi_factors_exact_or_error.
+Check cfi_advance_exact_or_error. Check cfi_insn_convert_sound. Check cfi_insn_convert_each.
+Check cfi_convert_write_read_sound. Check cfi_normal_form_cie. Check cfi_normal_form_fde.
+Check expr_convert_sound. Check expr_convert_sound_bytes. Check expr_branch_target_exact. Check expr_offsets_sorted.
+Check expr_converted_well_typed. Check expr_fuel_suffices. Check expr_normal_form_partial.
+Check range_convert_sound. Check loc_convert_sound. Check list_normal_form_v5. Check list_normal_form_v4.
+Check attr_convert_sound. Check attr_file_index_rule. Check attr_file_index_written. Check attr_implicit_const.
+Check attr_flag_present. Check attr_dwo_id_normal_form.
